@@ -94,6 +94,22 @@ func c04Seeds(r *rng) [][]byte {
 	// 4. chunks whose reference document has no metrics at all (only non-metric leaves)
 	z := func(t string) []elem { return []elem{{"s", &val{T: 0x02, B: []byte(t)}}, {"o", &val{T: 0x0A}}} }
 	seeds = append(seeds, mk("batch", 2, [][]elem{z("u"), z("v"), z("w")}, nil))
+	// 5. every BSON element type the validator knows, in the reference document and in the metadata (the unchanged
+	// stream and its prefixes exercise the length arithmetic of each type on well-formed input)
+	all := func(x int64) []elem {
+		return []elem{
+			{"d", &val{T: 0x01, I: 0x4000000000000000}}, {"s", &val{T: 0x02, B: []byte("text")}},
+			{"o", &val{T: 0x03, Doc: []elem{{"i", &val{T: 0x10, I: x}}}}}, {"a", &val{T: 0x04, Arr: []*val{{T: 0x12, I: x}, {T: 0x02, B: []byte("e")}}}},
+			{"b", &val{T: 0x05, Sub: 0, B: []byte{1, 2, 3}}}, {"u", &val{T: 0x06}}, {"oid", &val{T: 0x07, B: []byte("0123456789ab")}},
+			{"t", &val{T: 0x08, Bool: true}}, {"dt", &val{T: 0x09, I: 1600000000000 + x}}, {"n", &val{T: 0x0A}},
+			{"re", &val{T: 0x0B, B: []byte("^conn[0-9]+$"), B2: []byte("i")}}, {"re2", &val{T: 0x0B, B: []byte("x"), B2: []byte("imsx")}},
+			{"dbp", &val{T: 0x0C, B: []byte("ns"), B2: []byte("0123456789ab")}}, {"js", &val{T: 0x0D, B: []byte("f()")}},
+			{"sym", &val{T: 0x0E, B: []byte("sym")}}, {"jsw", &val{T: 0x0F, B: []byte("g()"), Doc: []elem{{"v", &val{T: 0x10, I: 7}}}}},
+			{"i32", &val{T: 0x10, I: x}}, {"ts", &val{T: 0x11, T2: 0, I: x}}, {"i64", &val{T: 0x12, I: x * 3}},
+			{"dec", &val{T: 0x13, B: []byte("0123456789abcdef")}}, {"min", &val{T: 0xFF}}, {"max", &val{T: 0x7F}},
+		}
+	}
+	seeds = append(seeds, mk("batch", 3, [][]elem{all(1), all(2), all(5)}, all(9)))
 	return seeds
 }
 
@@ -321,7 +337,7 @@ func init() {
 		total := 0
 		seen := map[string]bool{}
 		for si, seed := range c04Seeds(r) {
-			light := si == 3
+			light := si == 3 || si == 4
 			c04Mutants(r, seed, thorough, func(tag string, b []byte) {
 				if light && !strings.HasPrefix(tag, "pn") && !(strings.HasPrefix(tag, "prefix") && len(b)%7 == 0) {
 					return
